@@ -4,7 +4,7 @@ From Coq Require Import ZArith List Bool.
 From Coq Require Import Floats.SpecFloat.
 From Flocq Require Import IEEE754.BinarySingleNaN IEEE754.Binary IEEE754.Bits.
 From QV Require Import Rt.Prelude Rt.Amount Rt.Quantity Rt.Fmt Gen.Prefixes Gen.Kernels Gen.KernelsFmt
-  Amount.DecModel Amount.Dec Amount.DecStr Proofs.C15 Proofs.C15dec Proofs.C15f64.
+  Amount.DecModel Amount.Dec Amount.DecStr Proofs.C15 Proofs.C15dec Proofs.C15f64 Proofs.C15f64exp Proofs.C15f64prec.
 From QV Require Import Props.C15amount.
 Import ListNotations.
 Local Open Scope Z_scope.
@@ -39,8 +39,16 @@ Check C15_dec_quantity_fmt : forall (S : QBase DEC) (q : Qt S) (form : fspec),
     (dec_to_string (dec_shown (f_prec form) (q_amount S q)) ++ [32%N] ++ u_symbol S (q_unit S q)).
 Check C15_f64_digits_checked : forall m e ds k,
   shortest_search m e = Some (ds, k) -> roundtrip_ok m e ds k = true -> digits_ok m e = true.
-Check C15_f64_parse_back : forall x : binary64,
-  match x with B754_finite _ _ _ m e _ => digits_ok m e = true | B754_nan _ _ _ _ _ => False | _ => True end ->
+Check C15_f64_digits_always : forall (m : positive) (e : Z), SpecFloat.bounded 53 1024 m e = true -> digits_ok m e = true.
+Check C15_f64_parse_back : forall x : binary64, is_nan 53 1024 x = false ->
   f64_parse (f64_to_text fspec_default x) = Some x.
+Check C15_f64_precision_rounding : forall (m : positive) (e : Z) (p : N),
+  (0 <= e -> f64_scaled m e p = Zpos m * 2 ^ e * 10 ^ Z.of_N p) /\
+  (e < 0 -> 2 * Z.abs (f64_scaled m e p * 2 ^ (- e) - Zpos m * 10 ^ Z.of_N p) <= 2 ^ (- e)).
+Check C15_f64_precision_text : forall (s : bool) (m : positive) (e : Z) (H : SpecFloat.bounded 53 1024 m e = true) (p : N),
+  f64_scaled m e p <> 0 ->
+  parse_unsigned_sf (f64_body (Some p) (B754_finite 53 1024 s m e H)) = Some (round_ratio (f64_scaled m e p) (10 ^ Z.of_N p)).
+Check C15_f64_precision_zero : forall (s : bool) (m : positive) (e : Z) (H : SpecFloat.bounded 53 1024 m e = true) (p : N),
+  f64_scaled m e p = 0 -> f64_body (Some p) (B754_finite 53 1024 s m e H) = zero_text p.
 Check C15_f64_nan : forall s pl H, exists x,
   f64_parse (f64_to_text fspec_default (B754_nan 53 1024 s pl H)) = Some x /\ is_nan 53 1024 x = true.
